@@ -7,8 +7,9 @@ package main
 // cascade caps every layer at field capacity, runs over all layers top-down
 // and is the last writer before the conversion back to water content (except
 // the tabulated capillary rise), the uptake clip (shared with C08) and the
-// saturation below the groundwater table (shared with C15).  Freedom from
-// NaN/Inf over whole runs is not decidable here.
+// saturation below the groundwater table (shared with C15), and the domain
+// obligations of every partial floating point operation on the run path
+// (domain.go, sign.go, assume.go): where NaN and ±Inf could be created.
 
 import (
 	"fmt"
@@ -25,7 +26,8 @@ func checkC06(p *Prog, r *Report) {
 	c15Saturation(p, r, "C06.R4")
 	// field capacity must fall back from pore volume when the table falls: the restore/recompute covers every layer (shared with C15.R4)
 	c15History(p, r, "C06.R5")
-	r.Note("not decided: absence of NaN/Inf in every state variable (hundreds of divisions whose denominators are runtime state) and bounds over multi-day histories")
+	domainRule(p, r, "C06.R6", "the functions of the run path", nil, 180)
+	r.Note("not decided: NaN/Inf created inside the functions excluded by name (solar geometry, photosynthesis light response, crop development, residue tables), overflow to infinity of finite operands, NaN read from input files, and bounds over multi-day histories")
 }
 
 func c06Evaporation(p *Prog, r *Report) {
